@@ -3,32 +3,92 @@
 PROP = {
     "id": "C04",
     "level": "proof",
-    "technique": "Lean 4 proof over a fault-parametric object life-cycle model (every fault schedule) + exhaustive k-th-failure sweeps of the real containers",
-    "level_text": ("Kernel-checked theorems for every element count, relocation category and fault schedule: ObjectManager::RelocateCreate and CopyExec - the "
+    "technique": "Lean 4 proof over fault-parametric models (object life cycle; momo::Array as written; momo::TreeSet / TreeMap with its Relocator as written; every fault schedule) + model-level correspondence of the array model and of the B-tree fault model with the real containers under injected faults + exhaustive k-th-failure sweeps of the real containers",
+    "level_text": ("Arrays: kernel-checked theorem over a model of Array.h / ArrayUtility.h in which every Allocate / Reallocate, element construction and assignment "
+                   "consumes a decision of an arbitrary fault schedule and exceptions unwind through the source's catch blocks and guards: for every configuration, "
+                   "valid state (live or moved-from cells), argument (incl. aliases of own elements) and schedule, AddBack (3 forms), SetCount, Reserve, Shrink and copy "
+                   "assignment either complete with the state of the fault-free model or throw with cells, capacity and the block / object ledger exactly as before; a "
+                   "failing copy / (count,item) constructor leaves the ledger as it was. The model is tied to the code by a correspondence run that predicts the complete "
+                   "state after every faulted operation. "
+                   "Kernel-checked theorems for every element count, relocation category and fault schedule: ObjectManager::RelocateCreate and CopyExec - the "
                    "primitives with which buckets, nodes and arrays grow - leave memory exactly unchanged when any copy or the creator throws, with a "
                    "well-formed construction/destruction trace; container-level strong guarantee of hash insert/reserve is proved in C11's theorems "
                    "(add/reserve with faults return the unchanged table). The model is compared with the real ObjectManager for every count 0..5 and "
                    "every failing step; every operation documented as strong is swept on the real containers: the k-th allocation, k-th element copy "
-                   "and k-th hash/equality/ordering call fail for k = 0,1,2,... until the operation succeeds, state compared with a snapshot."),
+                   "and k-th hash/equality/ordering call fail for k = 0,1,2,... until the operation succeeds, state compared with a snapshot. "
+                   "B-trees (TreeSet / TreeMap): kernel-checked theorems over a fault-parametric layer on the C02 model (Momo.BTreeF) in which every IsLess call, every "
+                   "MemManager::Allocate (node params, Node::Create, growth of the Relocator's four bookkeeping arrays, crew), every element construction (creator, copies "
+                   "of a not-nothrow-relocatable relocation, copy into the node handle) and every assignment of Replace consults an arbitrary schedule and a ledger counts "
+                   "live leaf / internal nodes, items, bookkeeping blocks, params and crews: for every well-formed tree, node capacity, key / iterator, item category and "
+                   "schedule, a failing Insert / emplace / hinted Add / subscript insertion / Remove / Extract returns the very same tree with the ledger unchanged (only the "
+                   "node-params block of a rootless container may have appeared), a later fault-free call behaves as on the original tree, a failing copy constructor "
+                   "leaves the ledger as it was, and whatever sequence of CreateNode / AddSegment calls a Relocator executes, its destructor restores the ledger; a call that "
+                   "returns is the fault-free model's result (also for node merges that pvRebalance's catch(...) swallowed: same sequence, well-formed). The documented "
+                   "exception 5 (Remove with key and value both not nothrow-anyway-assignable) is a hypothesis of the removal theorem and a kernel-checked witness shows it is "
+                   "needed. The layer is tied to the code by c04_treefault: the model predicts threw / result, complete contents, complete node shape and the ledger "
+                   "(pool counters, element objects, memory-manager blocks) after every operation run with its k-th comparison / allocation / construction / assignment failing."),
     "level_note": ("Trusted: Lean kernel + standard axioms, harness (g++, ASan/UBSan, -fno-access-control). The sweep covers every k for each reached "
                    "operation instance, but the instances (container kind, size, element category) are a finite chosen set. Documented exceptions "
                    "(HashMap.h items 4, 5: Key&& argument may change; Remove/Extract with key and value both not nothrow-anyway-assignable) are "
-                   "not exercised. The C++ rule that a delegating constructor's exception runs the destructor is relied on, not modelled."),
+                   "not exercised by the sweeps (item 5 is exercised at model level for TreeMap by c04_treefault, item 4 is not). The C++ rule that a delegating constructor's exception runs the destructor is relied on, not modelled."),
     "modules": ["Momo.Props.C04"],
     "theorems": [
         "Momo.Obj.C04_relocateCreate_strong",
         "Momo.Obj.C04_relocateCreate_ok",
         "Momo.Obj.C04_copyExec_strong",
+        "Momo.ArrF.C04_array_strong_every_fault",
+        "Momo.ArrF.C04_array_usable_after",
+        "Momo.ArrF.C04_array_constructor_clean",
+        "Momo.ArrF.C04_array_no_fault_completes",
+        "Momo.BTreeF.C04_tree_relocator_restores",
+        "Momo.BTreeF.C04_tree_insert_strong",
+        "Momo.BTreeF.C04_tree_add_strong",
+        "Momo.BTreeF.C04_tree_remove_strong",
+        "Momo.BTreeF.C04_tree_copy_strong",
+        "Momo.BTreeF.C04_tree_usable_after",
     ],
     "harnesses": [
         {"name": "c04_strong", "src": "c04_strong.cpp", "sanitize": "asan", "timeout_quick": 600},
+        {"name": "c04_arrfault_1", "src": "c04_arrfault.cpp", "sanitize": "asan", "flags": ["-DAF_PART=1"], "timeout_quick": 600},
+        {"name": "c04_arrfault_2", "src": "c04_arrfault.cpp", "sanitize": "asan", "flags": ["-DAF_PART=2"], "timeout_quick": 600},
+        {"name": "c04_arrfault_3", "src": "c04_arrfault.cpp", "sanitize": "asan", "flags": ["-DAF_PART=3"], "timeout_quick": 600},
+        {"name": "c04_arrfault_4", "src": "c04_arrfault.cpp", "sanitize": "asan", "flags": ["-DAF_PART=4"], "timeout_quick": 600},
+        {"name": "c04_arrfault_5", "src": "c04_arrfault.cpp", "sanitize": "asan", "flags": ["-DAF_PART=5"], "timeout_quick": 600},
+    ] + [
+        {"name": "c04_treefault_%d" % k, "src": "c04_treefault.cpp", "sanitize": "asan", "flags": ["-DTF_PART=%d" % k], "timeout_quick": 600}
+        for k in range(1, 6)
     ],
     "rule": ("(a) RelocateCreate on ElemNM (nothrow-move) and ElemCO (copy-only, throwing) for count 0..5 x every failing step (model-level lines); "
              "(b) sweeps: Array / ArrayIntCap<3> / SegmentedArray(sqrt, cnst) AddBack (const&, &&, aliasing own element), SetCount, Reserve, Shrink, "
              "copy-assignment at sizes 0,3,4,8,17; HashSet/HashMap (LimP4, Open8, One) Insert, Remove, Reserve, operator[], copy-assignment at sizes "
              "0,1,3,7,20; HashMultiMap Add (new / existing key); TreeSet/TreeMap (node capacity 1, 4, 32) Insert front/middle/back, Remove, "
              "operator[], copy-assignment at sizes 0,1,4,9,33; copy / init-list / (count,item) constructors - each with the k-th allocation, k-th "
-             "element copy, k-th functor call failing for all k. distinct_nontrivial = distinct (operation instance, fault kind, k) that raised."),
+             "element copy, k-th functor call failing for all k. distinct_nontrivial = distinct (operation instance, fault kind, k) that raised. "
+             "(c) c04_arrfault (model level, engine arrfault): random histories (36 rounds x 110 operations per configuration quick, 260 x 120 thorough) on the real "
+             "Array / ArrayIntCap<2,3> of 5 item kinds (trivially relocatable with Reallocate / ReallocateInplace managers, nothrow-move, nothrow-move with throwing "
+             "assignment, copy-only, copy-only with throwing assignment), 10 configurations; every AddBack / AddBackVar / SetCount / Reserve / Shrink / InsertVar / "
+             "Insert / Remove / copy constructor / (count,item) constructor / copy assignment runs with its k-th fallible step (one counter over Allocate, "
+             "Reallocate, copy construction, copy-only 'move' construction, assignment) failing, k below the largest step count seen for that operation (1/4 "
+             "without fault); value arguments alias an element of the same array half of the time; the model predicts threw/ok, count, capacity, every cell incl. "
+             "moved-from marks, every memory-manager call incl. the refused one, live element objects and outstanding blocks - compared line by line; the "
+             "property's own oracle (unchanged state after a failed strong operation, validity / no leak after any failure) runs beside it. "
+             "distinct_nontrivial there = distinct (configuration, operation, k, count before) that raised. "
+             "(d) c04_treefault (model level, engine btreefault; 16 configurations in 5 executables): TreeSet of trivially relocatable / nothrow-move / copy-only / "
+             "copy-only-with-nothrow-assignment items and TreeMap<key, V> with nothrow-move and copy-only values, unique and multi, node capacities 1, 2, 3, 4 and "
+             "32 with one-block pools (every Node::Create is one Allocate, so the k-th allocation is an exact step of the model), TreeNode<> with its default arguments "
+             "(comparison / construction / assignment faults only), TreeTraitsStd (non-empty traits class), a TreeMap whose key and value are both not nothrow-anyway-"
+             "assignable (documented exception 5; assignment faults on Remove only); all with ExtraCheckMode::nothing. Random histories on 4 containers + one node "
+             "handle: insert, hinted add, remove by iterator / key, extract, re-insert, hinted re-insert, range insert, remove-if, merge (incl. ordered ranges for "
+             "pvMergeFast and empty destinations), copy assignment, clear. Each operation runs without fault (2/5), with one random (kind, k), or - strong "
+             "operations - swept k = 0,1,2,... until it succeeds. distinct_nontrivial there = distinct (configuration, operation, fault kind, k) that raised."),
     "runtime_only": ["ASan/UBSan on every sweep", "memory-manager ledger and element counters after every failure and after destruction"],
-    "not_modelled": ["container-level strong guarantee of arrays and B-trees is stated in C05 / C02 models, not here"],
+    "not_modelled": ["B-trees (Momo.BTreeF): the memory pools between Node::Create and the memory manager (a node creation is one fallible step; exact for pools with one "
+                     "block per buffer, which the model-level run uses; for TreeNode<>'s default pools allocation faults are swept at property level only); Remove(begin, end) and "
+                     "Remove(key) of a multi-key container under faults (Replace inside pvRemoveRange), ResetKey, initializer-list / range constructors, the Key&& overloads "
+                     "(documented exception 4), stdish wrappers; node releases of a successful removal / fast merge are booked as the difference of the node counts; a throwing "
+                     "element constructor / assignment / comparison is assumed to leave its operands unchanged; a manager without Reallocate is assumed for the Relocator's arrays",
+                     "arrays (Momo.ArrF): SegmentedArray has no fault model (sweeps of c04_strong only); Insert for input iterators, SetCount(count) with the "
+                     "default creator and the initializer-list / iterator-range constructors are not in the fault model (same code shape as the modelled ones); "
+                     "size_t overflow checks (pvCheckCapacity) and item filters that throw are not modelled; a throwing element constructor / assignment is "
+                     "assumed to leave its operands unchanged (assumption about the item type); a move constructor declared noexcept is assumed not to throw"],
 }
